@@ -226,6 +226,7 @@ def run(run):
         run.count("address_reuse_processes")
         run.count("trees_generated_in_sequence", out.get("trees", 0))
         run.count("trees_at_a_reused_address", out.get("trees_at_a_reused_address", 0))
+        run.count("same_offset_revisions_generated_first", out.get("same_offset_revisions_generated_first", 0))
         for p_, per in out["results"].items():
             extra = sorted(k for k in per if "/differs-in-round-" in k)
             if extra:
